@@ -556,6 +556,7 @@ def shard_run(arg):
 
 def run(tier, seed, work):
     res = vp.Result("C02", tier, seed, "exploration")
+    res.after_error_routes = ['unwritable_migrations_refused', 'failures_after_a_completed_migration']      # routes added in round 12 (a handled failure followed by ordinary work): must have observed something
     maxlen = 3 if tier == "quick" else 5
     hs = list(enumerate(h for n in range(1, maxlen + 1) for h in itertools.product(SYMS, repeat=n)))
     r = vp.rng(seed, "c02-len")
@@ -573,8 +574,9 @@ def run(tier, seed, work):
     res.extra["enumerated_histories"] = len(hs)
     res.rule = ("evaluations = handle_layer calls judged. distinct_nontrivial = distinct (abstract pre-state [types present or stripped, metadata parsable / absent / other type, has per-process env, SBOMs, exec.d], "
                 "layer impl, strategy, migration, action taken, result shape [process env, env None, exec.d, SBOMs]) transitions on a layer that existed before the call")
-    res.assumptions = ["metadata on disk is only ever produced by the two scripted Layer impls (V1{v}, V2{version}) or by migration",
+    res.assumptions = ["metadata on disk is only ever produced by the scripted Layer impls (V1{v}, V2{version}; V3{v, big} only in the final unwritable-migration step) or by migration",
                        "after a callback error the failing layer is removed by the monitor (its disk state is unspecified) before the history continues"]
+    res.required = list(getattr(res, "required", [])) + res.after_error_routes
     return res
 
 
